@@ -521,8 +521,12 @@ func (r Rng) Message(from string, mid string) *fbb.Message {
 		body.WriteString(strings.Repeat(r.Latin1Text(30, true), 20+r.Intn(100)))
 	}
 	m.SetBody(body.String())
-	for k := r.Intn(3); k > 0; k-- {
-		m.AddFile(fbb.NewFile("f"+r.StringFrom(alnum, 3)+".bin", r.Bytes(r.Intn(1500))))
+	for k := r.Intn(4); k > 0; k-- {
+		size := r.Intn(1500)
+		if r.Intn(4) == 0 {
+			size = 0 // an empty attachment, also in front of another one
+		}
+		m.AddFile(fbb.NewFile("f"+r.StringFrom(alnum, 3)+".bin", r.Bytes(size)))
 	}
 	return m
 }
